@@ -129,6 +129,27 @@ def dm_observables(n, n_ops):
 
 
 class FakeConfig:
+    # every other MPSConfig / SVConfig option, so that code reading one of them does not trip over the stub
+    dt = 7.0
+    precision = 1e-5
+    max_bond_dim = 1024
+    max_krylov_dim = 100
+    extra_krylov_tolerance = 1e-3
+    krylov_tolerance = 1e-8
+    num_gpus_to_use = 0
+    gpu = False
+    optimize_qubit_ordering = False
+    interaction_cutoff = 0.0
+    log_level = 20
+    log_file = None
+    autosave_prefix = "verif_"
+    autosave_dt = float("inf")
+    solver = "tdvp"
+    initial_state = None
+    with_modulation = False
+    n_trajectories = 1
+    interaction_matrix = None
+    prefer_device_noise_model = False
     def __init__(self, observables, default_times):
         self.observables = observables
         self.default_evaluation_times = default_times
